@@ -206,7 +206,8 @@ def run_property(prop: str, repo: Path, tier: str, seed: int, only_rule: str | N
                 + (f" ({inst.note})" if inst.note else "")
             )
     if errors:
-        status = 2
+        if status == 0:
+            status = 2  # a found violation stays a violation (exit 1) even if another rule could not be evaluated
         for e in errors:
             out.append(f"ANALYSIS-ERROR property={prop} {e}")
     if not quiet:
